@@ -232,7 +232,18 @@ func ErrorGrid() []GridCase {
 		{"pcall-wrap", func(fn Expr) []Stmt {
 			return []Stmt{
 				&Local{Names: []string{"ok", "e", "extra"}, Exprs: []Expr{C(N("pcall"), C(Glob("coroutine", "wrap"), fn))}},
-				Emit(S("caught"), N("ok"), C(N("type"), N("e")), C(N("rawequal"), N("e"), N("ERR")), N("extra")),
+				// the value itself: coroutine.wrap is no boundary, the error goes on
+				// to the pcall unchanged (C11: "delivers v itself ... to the nearest
+				// enclosing pcall")
+				Emit(S("caught"), N("ok"), N("e"), C(N("rawequal"), N("e"), N("ERR")), N("extra")),
+			}
+		}},
+		{"pcall-wrap-iterator", func(fn Expr) []Stmt {
+			return []Stmt{
+				&Local{Names: []string{"ok", "e", "extra"}, Exprs: []Expr{C(N("pcall"), &Func{Body: []Stmt{
+					&GenFor{Names: []string{"v"}, Exprs: []Expr{C(Glob("coroutine", "wrap"), fn)}, Body: []Stmt{Emit(S("unreachable-iteration"))}},
+				}})}},
+				Emit(S("caught"), N("ok"), N("e"), C(N("rawequal"), N("e"), N("ERR")), N("extra")),
 			}
 		}},
 		{"nested-pcall", func(fn Expr) []Stmt {
